@@ -127,7 +127,7 @@ class Gen:
         seen = set()
         for data in merged:
             key = tuple(data)
-            if key in seen:
+            if key in seen or len(data) > 40:
                 continue
             seen.add(key)
             g.append("resetw 1")
